@@ -422,6 +422,16 @@ Fixpoint run_k (v : ver) (k : nat) (s : st) (i : N) (ops : list op) : st :=
 (* process death after the first k instructions of the history, then restart *)
 Definition crash (v : ver) (k : nat) (hist : list op) : st := recover (run_k v k init 0 hist).
 
+(* ANY NUMBER of crash / restart rounds: round (ops, k) runs the first k instructions of its operations from the
+   recovered state of the previous round, then the process dies again and restarts (so a crash may hit the recovery
+   work itself: the sidecar rebuild of the first append, the index back-fill of ensure_default, ..); operation
+   indices continue across rounds.  Result: the restarted state and the next operation index *)
+Fixpoint run_rounds (v : ver) (s : st) (i : N) (rs : list (list op * nat)) : st * N :=
+  match rs with
+  | [] => (s, i)
+  | (ops, k) :: r => run_rounds v (recover (run_k v k s i ops)) (i + nlen ops) r
+  end.
+
 (* how many operations of the history are complete after its first k instructions (same branching as run_k) *)
 Fixpoint done_ops (v : ver) (k : nat) (s : st) (i : N) (ops : list op) : nat :=
   match ops with
